@@ -9,15 +9,18 @@ package jobcontroller
 //@ pure deleting(rj *execution.Job) bool = !rj.DeletionTimestamp.IsZero()
 
 //@ func isDeleted
+//@   params rj
 //@   requires rj != nil
 //@   ensures [C08,C13] result == deleting(rj)
 
 //@ func isFinalized
+//@   params rj, finalizer
 //@   requires rj != nil
 //@   ensures [C13] result == (deleting(rj) && !meta.contains(rj.Finalizers, finalizer))
 
 // No task may be created once a kill timestamp exists (even before it passes) or the Job carries an admission error.
 //@ func canCreateTask
+//@   params rj
 //@   requires rj != nil
 //@   ensures [C08,C12] result == (rj.Spec.KillTimestamp == nil && !(job.LabelKeyAdmissionErrorMessage in rj.Annotations))
 
@@ -33,16 +36,19 @@ package jobcontroller
 //@        : (rj.Spec.Template.Parallelism.CompletionStrategy == execution.AnySuccessful && *rj.Status.ParallelStatus.Successful))
 
 //@ func shouldKillJobForParallel
+//@   params rj
 //@   requires rj != nil
 //@   ensures [C10,C12] result == parallelDecidedKill(rj)
 
 //@ func shouldKillJob
+//@   params rj
 //@   requires rj != nil
 //@   modifies clock
 //@   ensures [C12] never-before-kill-timestamp: result == (killDue(rj) || parallelDecidedKill(rj))
 //@   ensures [C12] clock >= old(clock)
 
 //@ func getJobStateFromCondition
+//@   params condition
 //@   ensures [C11] result == (condition.Queueing != nil ? execution.JobStateQueued
 //@        : (condition.Waiting != nil ? execution.JobStateWaiting
 //@        : (condition.Running != nil ? execution.JobStateRunning
@@ -51,6 +57,7 @@ package jobcontroller
 // ---- control.go ---------------------------------------------------------------------------------------------------
 
 //@ func ExecutionControl.DeleteJob
+//@   params c, ctx, rj, o
 //@   tags C13, C20
 //@   requires c != nil && rj != nil
 //@   modifies jwN, jwKind, jwObj, jwOK, jwName
@@ -63,6 +70,7 @@ package jobcontroller
 //@ pure finishNs(rj *execution.Job) Int = ns(rj.Status.Condition.Finished.FinishTimestamp.Time)
 
 //@ func Reconciler.handleTTLAfterFinished
+//@   params w, ctx, rj, cfg
 //@   tags C13
 //@   requires w != nil && w.client != nil && rj != nil && cfg != nil
 //@   modifies jwN, jwKind, jwObj, jwOK, jwName, clock
@@ -76,6 +84,7 @@ package jobcontroller
 // ---- deleting tasks ---------------------------------------------------------------------------------------------------
 
 //@ func Reconciler.enqueueAfter
+//@   params w, rj, purpose, duration
 //@   tags C12, C13
 //@   requires w != nil && rj != nil
 //@   modifies wakeN, wakeKey, wakeAfter
@@ -84,6 +93,7 @@ package jobcontroller
 // the per-task closure of deleteTasks: requests deletion of exactly this task (unless it is already being deleted
 // and the request is not forced); NotFound is benign, other errors are returned
 //@ func Reconciler.deleteTasks$1
+//@   params task
 //@   tags C12, C13
 //@   modifies jobtasks.delReq, jobtasks.forceReq, clock
 //@   ensures [C12,C13] only-this-task: forall n string :: jobtasks.delReq[n] ==> (old(jobtasks.delReq[n]) || n == jobtasks.taskName(task))
@@ -111,9 +121,11 @@ package jobcontroller
 //@ pure inTasks(ts []jobtasks.Task, t jobtasks.Task) bool = exists j int :: 0 <= j && j < len(ts) && ts[j] == t
 
 //@ func isTaskFinished
+//@   params task
 //@   ensures [C12] result == !unfinished(task)
 
 //@ func Reconciler.handleKillJob
+//@   params w, ctx, rj, tasks
 //@   tags C12
 //@   requires w != nil && rj != nil
 //@   modifies jobtasks.delReq, jobtasks.forceReq, clock
@@ -141,6 +153,7 @@ package jobcontroller
 //@ pure overdue(t jobtasks.Task, pt Int, now Int) bool = unfinished(t) && notRunning(t) && createdNs(t) + pt <= now
 
 //@ func Reconciler.handlePendingTasks
+//@   params w, ctx, rj, tasks, cfg
 //@   tags C12
 //@   requires w != nil && rj != nil && cfg != nil && rj.Spec.Template != nil
 //@   modifies jobtasks.delReq, jobtasks.forceReq, clock, wakeN, wakeKey, wakeAfter
@@ -175,6 +188,7 @@ package jobcontroller
 //@ pure stuck(t jobtasks.Task, timeout Int, now Int) bool = jobtasks.taskDelSet(t) && jobtasks.taskDelNs(t) + timeout <= now
 
 //@ func Reconciler.handleForceDeleteKillingTasks
+//@   params w, ctx, rj, tasks, cfg
 //@   tags C12
 //@   requires w != nil && rj != nil && cfg != nil && rj.Spec.Template != nil
 //@   modifies jobtasks.delReq, jobtasks.forceReq, clock, wakeN, wakeKey, wakeAfter
@@ -200,6 +214,7 @@ package jobcontroller
 // status recomputation from the task list (UpdateJobTaskRefs, then syncJobStatusFromTaskRefs): the Job keeps its identity,
 // spec, finalizers and deletion timestamp
 //@ func Reconciler.updateTaskRefStatus
+//@   params w, rj, tasks
 //@   tags C09, C11, C13
 //@   requires w != nil && rj != nil && rj.Spec.Template != nil
 //@   modifies clock, wakeN, wakeKey, wakeAfter
@@ -211,6 +226,7 @@ package jobcontroller
 //@ pure gone(rj *execution.Job, k int) bool = jobtasks.taskCached(rj, rj.Status.Tasks[k].Name) == nil
 
 //@ func Reconciler.handleFinishFinalizer
+//@   params w, ctx, rj
 //@   tags C13
 //@   requires w != nil && rj != nil
 //@   assumes template-was-defaulted-by-the-mutating-webhook: rj.Spec.Template != nil
@@ -243,6 +259,7 @@ package jobcontroller
 // (C20: a task that exists in the API but is not yet in the task cache is a transient failure -- the lookup must fail so
 // that the pass is retried, it must not be mistaken for "exists but is someone else's", which ends the Job for good)
 //@ func Reconciler.getTaskForAdoption
+//@   params w, rj, name
 //@   tags C09, C20
 //@   requires w != nil && rj != nil
 //@   loop 1 invariant -1 <= rangeindex && rangeindex < len(jobtasks.taskOwners(task))
@@ -253,6 +270,7 @@ package jobcontroller
 //@   ensures [C09] error-returns-nothing: result1 != nil ==> result0 == nil
 
 //@ func Reconciler.createTask
+//@   params w, ctx, rj, index
 //@   tags C09
 //@   requires w != nil && rj != nil
 //@   modifies jobtasks.tcN, jobtasks.tcJob, jobtasks.tcRetry, jobtasks.tcIndex, jobtasks.tcOK, jobtasks.tcErr, jobtasks.tcTask
@@ -268,6 +286,7 @@ package jobcontroller
 //@ pure createErr(n Int) Int = jobtasks.tcErr[n]
 
 //@ func Reconciler.syncCreateTask
+//@   params w, ctx, rj, tasks, index
 //@   tags C09
 //@   requires w != nil && rj != nil
 //@   modifies elems(tasks), jobtasks.tcN, jobtasks.tcJob, jobtasks.tcRetry, jobtasks.tcIndex, jobtasks.tcOK, jobtasks.tcErr, jobtasks.tcTask
@@ -297,6 +316,7 @@ package jobcontroller
 // ---- status recomputation (C11) ----------------------------------------------------------------------------------------------------
 
 //@ func UpdateJobStatusFromTaskRefs
+//@   params rj
 //@   tags C11
 //@   requires rj != nil && rj.Spec.Template != nil
 //@   modifies clock
@@ -315,6 +335,7 @@ package jobcontroller
 
 // failed syncs of this reconciler are requeued without limit (C20)
 //@ func Reconciler.MaxRequeues
+//@   params w
 //@   ensures [C20] unlimited-requeues: result == -1
 
 // ---- task creation discipline (C08) ---------------------------------------------------------------------------------------------
@@ -322,6 +343,7 @@ package jobcontroller
 // it, attempts remain), carries that index's next retry number, and is not issued before the latest finish of the index
 // plus the retry delay; none is issued when the Job has a kill timestamp or an admission error.
 //@ func Reconciler.syncCreateTasks
+//@   params w, ctx, rj, tasks
 //@   tags C08
 //@   requires w != nil && rj != nil
 //@   assumes template-was-defaulted-by-the-mutating-webhook: rj.Spec.Template != nil
@@ -357,6 +379,7 @@ package jobcontroller
 // delete, and recompute the status. Its contract carries the kill sweep (C12) and the creation discipline (C08) to `sync`.
 //@ pure cachedTask(rj *execution.Job, k int) jobtasks.Task = jobtasks.taskCached(rj, rj.Status.Tasks[k].Name)
 //@ func Reconciler.syncJobTasks
+//@   params w, ctx, rj, cfg, trace
 //@   tags C08, C12
 //@   requires w != nil && rj != nil && cfg != nil
 //@   assumes template-was-defaulted-by-the-mutating-webhook: rj.Spec.Template != nil
@@ -374,6 +397,7 @@ package jobcontroller
 //@   ensures clock >= old(clock)
 
 //@ func Reconciler.syncJobStatusFromTaskRefs
+//@   params w, rj
 //@   tags C11, C13
 //@   requires w != nil && rj != nil && rj.Spec.Template != nil
 //@   modifies clock, wakeN, wakeKey, wakeAfter
@@ -384,6 +408,7 @@ package jobcontroller
 //@   ensures clock >= old(clock)
 
 //@ func Reconciler.sync
+//@   params w, ctx, rj, cfg, trace
 //@   tags C08, C12, C13
 //@   requires w != nil && w.client != nil && rj != nil && cfg != nil
 //@   assumes template-was-defaulted-by-the-mutating-webhook: rj.Spec.Template != nil
@@ -411,6 +436,7 @@ package jobcontroller
 //@   ensures result1 == nil ==> result0 == jobStatusEq(orig, updated)
 
 //@ func ExecutionControl.UpdateJob
+//@   params c, ctx, rj, newRj
 //@   tags C20, C09
 //@   requires c != nil && rj != nil && newRj != nil
 //@   modifies jwN, jwKind, jwObj, jwOK
@@ -421,6 +447,7 @@ package jobcontroller
 //@   ensures [C20] log-append-only: forall i int :: i < old(jwN) ==> jwKind[i] == old(jwKind[i]) && jwObj[i] == old(jwObj[i]) && jwOK[i] == old(jwOK[i])
 
 //@ func ExecutionControl.UpdateJobStatus
+//@   params c, ctx, rj, newRj
 //@   tags C20, C11
 //@   requires c != nil && rj != nil && newRj != nil
 //@   modifies jwN, jwKind, jwObj, jwOK
@@ -433,6 +460,7 @@ package jobcontroller
 // One reconcile of a Job key (C20): every error of the pass and every failed write is returned (the reconciler template then
 // re-queues the key without limit, MaxRequeues == -1); nothing is written for a Job that is not in the cache.
 //@ func Reconciler.SyncOne
+//@   params w, ctx, namespace, name, arg3
 //@   tags C20, C09
 //@   requires w != nil && w.client != nil
 //@   modifies clock, wakeN, wakeKey, wakeAfter, jobtasks.delReq, jobtasks.forceReq, jobtasks.tcN, jobtasks.tcJob, jobtasks.tcRetry, jobtasks.tcIndex, jobtasks.tcOK, jobtasks.tcErr, jobtasks.tcTask, jwN, jwKind, jwObj, jwOK, jwName, parallel.sumN, parallel.sumTasks, parallel.sumOK, parallel.sumComplete
